@@ -329,6 +329,8 @@ UC12One(u) == {[inp |-> <<In222({<<1, 1, 1>>, <<1, 1, 2>>, <<2, 1, 1>>}, {}), In
 UC12Clim(u) == {[inp |-> <<In222({}, {}), In222({}, {<<1, 2, 1>>})>>,
                  clim |-> [on |-> TRUE, ts |-> Tb, ls |-> La, ss |-> Sa, hasObs |-> FALSE, mo |-> {}, mf |-> {<<2, 2, 2>>}, mode |-> "small", type |-> "subtract"],
                  opt |-> NoOptions]}
+\* the same files with a climatology that holds zeros, under -C: a quotient by zero is no number, so such a pair is no valid pair of any table (after seed C06-i)
+UC12ClimDiv(u) == {[x EXCEPT !.clim.type = "divide", !.clim.mf = {}] : x \in UC12Clim(0)}
 UC04Quick(u) == {x \in UC04(0) : x.inp[2].mo = {} \/ x.inp[1].mf = {}}
 \* climatology together with an input that borrows its observations
 UC01ClimNoObs(u) == {[inp |-> <<In112(TRUE, a, b), In112(FALSE, {}, d)>>, clim |-> ClimGen(f, m[1], m[2]), opt |-> NoOptions]
@@ -383,7 +385,7 @@ Universe(u) ==
     [] Family = "C04Quick"  -> UC04Quick(0)
     [] Family = "C04Clim"   -> UC04Clim(0)
     [] Family = "C12"       -> UC12(0)
-    [] Family = "C12Report" -> UC12(0) \cup UC12Clim(0) \cup UC12One(0) \cup UC12Ids(0) \cup UC12Week(0)
+    [] Family = "C12Report" -> UC12(0) \cup UC12Clim(0) \cup UC12ClimDiv(0) \cup UC12One(0) \cup UC12Ids(0) \cup UC12Week(0)
     [] Family = "C02Order"  -> UC02Order(0)
     [] Family = "C02Sel"    -> UC02Sel(0)
     [] Family = "C02Repeat" -> UC02Repeat(0)
